@@ -13,7 +13,7 @@
 
 static ref_arena RA;
 enum { D_TYPE, D_CTX, D_CONTENT, D_ENC, D_LFORM, D_IFORM, D_BW, D_PAGES, D_CODEC, D_CRC, D_STATS, D_DOFS, D_UNKNOWN, D_TFORM, D_PATTERN, D_NRG, D_UNSUP, ND };
-static const int DSZ[ND] = { 8, 8, 12, 3, 7, 7, 7, 4, 5, 2, 7, 2, 33, 4, 4, 2, 10 };
+static const int DSZ[ND] = { 8, 8, 12, 3, 7, 7, 7, 4, 7, 2, 7, 2, 33, 4, 4, 2, 10 };
 static const char* DN[ND] = { "type", "ctx", "content", "enc", "level_form", "index_form", "index_bw", "pages", "codec", "crc", "stats", "dict_offset", "unknown", "thrift_form", "pattern", "row_groups", "unsupported" };
 static const char* UNSUP[] = { "", "delta-binary-packed", "delta-length-byte-array", "delta-byte-array", "byte-stream-split", "data-page-v2", "bit-packed-levels", "codec-lzo", "codec-brotli", "codec-99" };
 
@@ -31,6 +31,7 @@ static int gen_levels(int ctx, int opt, int N, lvseq_t* out, int cap) {
     return cnt;
 }
 
+static int g_cform;
 static const ref_stats* stat_new(void) { static ref_stats s; s.max_value = (ref_bin){ (const uint8_t*)"\xff\xff\xff\x7f", 4, true }; s.min_value = (ref_bin){ (const uint8_t*)"\x00\x00\x00\x80", 4, true }; s.has_null_count = true; s.null_count = 2; return &s; }
 static const ref_stats* stat_old(void) { static ref_stats s; s.max = (ref_bin){ (const uint8_t*)"zz", 2, true }; s.min = (ref_bin){ (const uint8_t*)"", 0, true }; s.has_distinct = true; s.distinct = 3; return &s; }
 /* long binary statistics: a page header of about 150 / 330 bytes (a reader must not assume headers fit a small fixed window) */
@@ -58,7 +59,7 @@ static void build(const int* ch, rfile_t* f, const lvseq_t* explicit_seq) {
     static const int BW[] = { 0, 1, 2, 108, 109, 116, 132 }; f->index_bw_extra = BW[ch[D_BW]];
     switch (ch[D_PAGES]) { case 1: f->npages[0] = 2; f->page_levels[0][0] = N / 2; f->page_levels[0][1] = N - N / 2; break; case 2: f->npages[0] = 3; f->page_levels[0][0] = 1; f->page_levels[0][1] = N - 2; f->page_levels[0][2] = 1; break;
                           case 3: f->npages[0] = N > 8 ? 8 : N; for (int i = 0; i < f->npages[0]; i++) f->page_levels[0][i] = 1; f->page_levels[0][f->npages[0] - 1] += N - f->npages[0]; break; default: break; }
-    static const int CD[] = { CODEC_NONE, CODEC_SNAPPY, CODEC_GZIP, CODEC_ZSTD, CODEC_LZ4_RAW }; f->codec = CD[ch[D_CODEC]];
+    static const int CD[] = { CODEC_NONE, CODEC_SNAPPY, CODEC_GZIP, CODEC_ZSTD, CODEC_LZ4_RAW, CODEC_SNAPPY, CODEC_ZSTD }; f->codec = CD[ch[D_CODEC]]; g_cform = ch[D_CODEC] >= 5;      /* 5, 6: the other valid stream forms (one-literal Snappy, Zstd frame without content size) */
     f->crc = ch[D_CRC] == 0;
     switch (ch[D_STATS]) { case 1: f->chunk_stats[0] = stat_new(); break; case 2: f->chunk_stats[0] = stat_old(); break; case 3: f->chunk_stats[0] = stat_both(); f->page_stats[0] = stat_new(); break; case 4: f->page_stats[0] = stat_both(); break; case 5: f->page_stats[0] = stat_long(60); f->chunk_stats[0] = stat_long(60); break; case 6: f->page_stats[0] = stat_long(150); break; default: break; }
     f->dict_offset_present = ch[D_DOFS] == 0; f->data_offset_at_dict = ch[D_DOFS] == 1;
@@ -124,7 +125,8 @@ static void run(const int* ch, int ndev, void* ctxp) {
     if (ch[D_DOFS] && f.enc[0] == ENC_PLAIN) { mc_count("skipped.dict-offset-without-dictionary", 1); }
     ref_buf img; ref_buf_init(&img); static ref_coldata cols[4]; int np = 0;
     if (ch[D_UNSUP] >= 7) f.codec = CODEC_NONE;
-    if (rf_build(&RA, &f, &img, NULL, 0, &np, cols)) mc_harness_error("reference writer failed: %s", rf_desc(&f));
+    ref_compress_form = g_cform; int wrc = rf_build(&RA, &f, &img, NULL, 0, &np, cols); ref_compress_form = 0;
+    if (wrc) mc_harness_error("reference writer failed: %s", rf_desc(&f));
     if (!ch[D_UNSUP]) { ref_file rf; if (ref_pq_read(&RA, img.p, img.n, &rf, REF_RD_CHECK_TOTALS)) mc_harness_error("reference reader rejects the reference writer's file: %s (%s)", rf.err, rf_desc(&f)); }
     if (ch[D_UNSUP] >= 7) {     /* patch the codec id in the footer: uncompressed pages tagged with a codec carquet does not implement */
         /* rebuild with a marker codec is not possible (ref_compress refuses); flip the i32 field value in place: codec NONE is zigzag 0 at a known spot found by re-encoding */
@@ -142,7 +144,7 @@ static void run(const int* ch, int ndev, void* ctxp) {
 static void enumerate(void) {
     mc_rule("C06: files written by the independent reference writer. Stage 1: every valid (repetition, definition) level sequence of up to 5/6 entries for each of 8 nesting contexts (flat required/optional, optional group, repeated leaf, 3-level list, "
             "doubly repeated, required>optional>repeated) under three base layouts. Stage 2: every file with at most 3 (quick) / 4 (thorough) of 17 layout dimensions off the default, each deviating dimension over its whole alphabet: physical type (8 incl. INT96), "
-            "nesting context, content, value encoding (PLAIN / PLAIN_DICTIONARY / RLE_DICTIONARY), 7 hybrid forms for levels and for indices, index bit width (minimal..32), page split, codec (5), CRC, statistics (new/deprecated/both/page), "
+            "nesting context, content, value encoding (PLAIN / PLAIN_DICTIONARY / RLE_DICTIONARY), 7 hybrid forms for levels and for indices, index bit width (minimal..32), page split, codec (5 + the one-literal Snappy form and the Zstd frame without content size), CRC, statistics (new/deprecated/both/page), "
             "dictionary_page_offset present/absent, unknown Thrift fields (16 kinds x 2 positions in every struct), long-form headers, value pattern, row groups, and one unsupported feature (4 encodings, data page v2, BIT_PACKED levels, 3 codec ids). "
             "Oracle: carquet_column_read_batch returns exactly the stored def levels, rep levels and dense values; for unsupported features: an error or the correct values, never other values and never a silent end of data. "
             "Every reference file is first validated by the reference reader. Non-trivial = every file; distinct by choice-vector hash.");
@@ -161,5 +163,23 @@ static void enumerate(void) {
         }
     }
     mc_deviations(DSZ, ND, mc_thorough() ? 4 : 3, "c06", DN, run, NULL);
+    /* pages of 60 000 .. 80 000 bytes (literal and block lengths that need a third length byte), in every codec form */
+    mc_stage("large-pages.codec-forms");
+    { static const int NN[] = { 15000, 16383, 16384, 16385, 20000 }; static const int CDF[][2] = { { CODEC_NONE, 0 }, { CODEC_SNAPPY, 0 }, { CODEC_SNAPPY, 1 }, { CODEC_GZIP, 0 }, { CODEC_ZSTD, 0 }, { CODEC_ZSTD, 1 }, { CODEC_LZ4_RAW, 0 } };
+      for (int ni = 0; ni < 5; ni++) for (int ci = 0; ci < 7; ci++) for (int ty = 0; ty < 2; ty++) for (int enc = 0; enc < 2; enc++) {
+          if (!mc_next()) continue;
+          rfile_t f; memset(&f, 0, sizeof f); f.ncols = 1; f.N = NN[ni]; f.nrg = 1; f.codec = CDF[ci][0]; f.crc = true; f.dict_offset_present = true; f.pattern = enc ? 0 : 3; f.col[0].ptype = ty ? PT_INT64 : PT_INT32; f.enc[0] = enc ? ENC_RLE_DICT : ENC_PLAIN;
+          mc_desc("c06:large-page;n=%d;type=%s;enc=%s;codec=%d;form=%d", f.N, ty ? "i64" : "i32", enc ? "dict" : "plain", CDF[ci][0], CDF[ci][1]); mc_case_key(mc_mix(0xc06b, ((uint64_t)ni << 16) | ((uint64_t)ci << 8) | ((uint64_t)ty << 1) | (uint64_t)enc)); mc_nontrivial(); mc_budget_ms(30000);
+          ref_buf img; ref_buf_init(&img); static ref_coldata cols[4]; int np = 0; ref_compress_form = CDF[ci][1]; int wrc = rf_build(&RA, &f, &img, NULL, 0, &np, cols); ref_compress_form = 0; if (wrc) mc_harness_error("reference writer failed (large page)");
+          uint8_t* x = mc_exact(img.p, img.n); carquet_error_t err = CARQUET_ERROR_INIT; carquet_reader_t* rd = carquet_reader_open_buffer(x, img.n, NULL, &err);
+          if (!rd) mc_fail("large-page.open-failed", "code %d %s", err.code, err.message);
+          else { carquet_column_reader_t* cr = carquet_reader_get_column(rd, 0, 0, &err); int w = ty ? 8 : 4;
+              if (!cr) mc_fail("large-page.column-open-failed", "code %d %s", err.code, err.message);
+              else { uint8_t* vb = mc_exact(NULL, (size_t)w * (size_t)f.N); int64_t got = carquet_column_read_batch(cr, vb, f.N, NULL, NULL);
+                  if (got != f.N || memcmp(vb, cols[0].fixed, (size_t)w * (size_t)f.N)) { char key[96]; snprintf(key, sizeof key, "large-page.read.%s.%s", CDF[ci][0] == CODEC_SNAPPY ? "snappy" : CDF[ci][0] == CODEC_ZSTD ? "zstd" : CDF[ci][0] == CODEC_GZIP ? "gzip" : CDF[ci][0] == CODEC_LZ4_RAW ? "lz4" : "uncompressed", CDF[ci][1] ? "alternative-stream-form" : "default-stream-form"); mc_fail(key, "read_batch(%d) returned %lld or wrong values", f.N, (long long)got); }
+                  free(vb); carquet_column_reader_free(cr); }
+              carquet_reader_close(rd); }
+          free(x); ref_buf_free(&img); ref_arena_free(&RA);
+      } }
 }
 int main(int argc, char** argv) { return mc_main(argc, argv, "c06", enumerate); }
